@@ -11,6 +11,9 @@
 (*   AcceptedJustified : a run accepted            => R accepts                               *)
 (*   FinalJustified    : ... and returned a sequent => that sequent is one a justified proof   *)
 (*                       of this shape may conclude                                           *)
+(*   StepsJustified    : ... and every sequent an item carries after the check (g.ths: the     *)
+(*                       stated one, or the one check_proof assigned in place) is one that     *)
+(*                       R verified at that position                                          *)
 (*   NoGapsHonoured    : accepted with no_gaps      => the object contains no placeholder      *)
 (*   GapsReported      : accepted                   => reported gaps = placeholders present    *)
 (*   ExtensionProved   : theorem installed and no axiom reported => R accepts gap-free and     *)
@@ -33,6 +36,9 @@ RunFails(run, nogaps, R, P) ==
        \cup (IF R.ok /\ ~IsNone(ToSq(run.final)) /\ ToSq(run.final) \notin Finals(R, P) THEN {"FinalJustified"} ELSE {})
        \cup (IF nogaps /\ Placeholders(P) # <<>> THEN {"NoGapsHonoured"} ELSE {})
        \cup (IF ~BagEq(GapsOf(run), Placeholders(P)) THEN {"GapsReported"} ELSE {})
+StepFails(run, R) ==
+  IF Acc(run) /\ R.ok /\ \E k \in 1..Len(run.ths) : ToSq(run.ths[k].s) \notin At(R.V, run.ths[k].p)
+  THEN {"StepsJustified"} ELSE {}
 ExtFails(x, R, P) ==
   IF x.installed /\ ~x.axiom /\ ~(R.ok /\ R.gaps = <<>> /\ \E f \in Finals(R, P) : CanProve(f, ToSq(x.stated)))
   THEN {"ExtensionProved"} ELSE {}
@@ -41,7 +47,7 @@ Verdict(e) ==
   LET P == FromJ(e.prf)
       R == RefCheck(P, FALSE)
       fails == IF R.big THEN {}
-               ELSE RunFails(e.ng, TRUE, R, P) \cup RunFails(e.g, FALSE, R, P)
+               ELSE RunFails(e.ng, TRUE, R, P) \cup RunFails(e.g, FALSE, R, P) \cup StepFails(e.g, R)
                     \cup UNION { ExtFails(e.exts[k], R, P) : k \in 1..Len(e.exts) }
       nt == ~R.big /\ (Acc(e.ng) \/ Acc(e.g) \/ \E k \in 1..Len(e.exts) : e.exts[k].installed)
       refdv == ~R.big /\ R.ok /\ Len(P) > 0 /\ (~Acc(e.g) \/ (R.gaps = <<>> /\ ~Acc(e.ng)))
